@@ -116,6 +116,8 @@ def gen_case(rng, counting=None, tiny=True, reload=True):
     fsz = rng.choice([1, 1, 1, 2])
     n = rng.randint(2, 3 * cap * b + 4)
     keys = ["%d" % rng.randrange(4000) for _ in range(n)]
+    if rng.random() < 0.2:
+        keys = [("k\u00e9%d" % rng.randrange(4000)) if i % 2 else bytes([rng.randrange(256), i % 256]) for i in range(n)]
     ops = []
     for _ in range(rng.randint(3, 4 * cap * b + 6)):
         r = rng.random()
